@@ -223,7 +223,7 @@ def task_bounds(prop, seed, size, cfgbins, mod=None, fn='make', kw=None):
 
 
 STREAMS = [('vlib.props.c02', 'make', {}, 120), ('vlib.props.c03', 'make', {}, 120), ('vlib.props.c04', 'make', {}, 40),
-           ('vlib.props.c04', 'make_digits', {}, 0), ('vlib.props.c04', 'make', {'big': (190, 500)}, 0),
+           ('vlib.props.c04', 'make_digits', {}, 0), ('vlib.props.c04', 'make', {'big': (190, 500, 800)}, 0),
            ('vlib.props.c06', 'make', {}, 120), ('vlib.props.c07', 'make', {}, 80), ('vlib.props.c08', 'make', {}, 10),
            ('vlib.props.c09', 'make', {}, 60), ('vlib.props.c13', 'make', {'sizes': (0, 1, 3, 96), 'reps': 1}, 0),
            ('vlib.props.c16', 'make', {}, 110), ('vlib.props.c17', 'make', {}, 90)]
